@@ -344,6 +344,10 @@ func (m *Machine) chanRecv(c *chanV) (value, bool) {
 
 func (m *Machine) maybeFire(c *chanV) {
 	// a timer may or may not have fired by now
+	if m.clockTicks {
+		// selftest (concrete run): a timer fires only when nothing else can run
+		return
+	}
 	m.timerChoice = true
 	if m.choose("choose", 2) == 1 {
 		c.fired = true
